@@ -107,6 +107,8 @@ class n0xml:
 
         if isinstance(ordered_items, dict):
             ordered_items = ordered_items['value']
+        if not isinstance(ordered_items, list):
+            return default  # a leaf (text or empty element) has no sub-nodes
         for item in ordered_items:
             if item[0] == node_name:
                 if node_index == 0:
